@@ -10,11 +10,21 @@ import (
 	"os"
 	"runtime"
 	"runtime/debug"
+	"strconv"
 	"strings"
 	"time"
 )
 
-const caseTimeout = 4 * time.Second
+// a call that does not return within this time is reported as a hang; the parent repeats such a case alone with a much
+// longer limit (VWORKER_CASE_TIMEOUT, seconds) before it believes it: a loaded machine is not a hang of the library
+var caseTimeout = func() time.Duration {
+	if s := os.Getenv("VWORKER_CASE_TIMEOUT"); s != "" {
+		if n, err := strconv.Atoi(s); err == nil && n > 0 {
+			return time.Duration(n) * time.Second
+		}
+	}
+	return 4 * time.Second
+}()
 
 type J = map[string]interface{}
 
@@ -60,7 +70,7 @@ func execLoop() {
 				case res = <-done:
 					// every goroutine the call started (the splice lexer) must be gone when it has returned
 					leaked := 0
-					for w := 0; w < 40; w++ {
+					for w := 0; w < 500; w++ { // (up to 1 s: on a loaded machine a finished goroutine may take a while to be gone)
 						if leaked = runtime.NumGoroutine() - before; leaked <= 0 {
 							break
 						}
